@@ -348,14 +348,22 @@ class Deployed:
         init = bytes.fromhex(self.out["bytecode"][2:])
         if ctor_call is not None:
             init += enc_tuple(ctor_call.args, [t for _, t in prog.ctor.params])
-        self.addr = self.chain.deploy(init, sender=ctor_call.sender if ctor_call is not None else DEPLOYER)
+        self.deploy_out = b""        # revert data of a failed deployment
+        try:
+            self.addr = self.chain.evm.deploy(ctor_call.sender if ctor_call is not None else DEPLOYER, init, 0, None)
+        except RuntimeError as e:
+            self.addr = None
+            import re
+            m = re.match(r"Revert \{ gas_used: (\d+), output: 0x([0-9a-f]*) }", e.args[0] if e.args else "")
+            if m:
+                self.deploy_out = bytes.fromhex(m.group(2))
         if self.addr is None and ctor_call is None:
             raise RuntimeError("deployment reverted")
         self.layout = self.out["layout"].get("storage_layout", {})
 
     def call(self, call):
         if getattr(call, "deploy", False):
-            return (self.addr is not None, b"", [])
+            return (self.addr is not None, self.deploy_out, [])
         if self.addr is None:
             return (False, b"", [])
         fun = self.prog.exts[call.fidx]
